@@ -284,6 +284,43 @@ Outcomes(st, ev) ==
 Matches(o, got) == o.res = got.res /\ o.st = got.st /\ (o.pos = AnyPos \/ o.pos = got.pos)
 Allowed(st, ev, got) == \E o \in Outcomes(st, ev) : Matches(o, got)
 
+\* ------------------------------------------------------------------ sessions: one reader / writer used for several calls
+\* A reader or writer object has no state besides its cursor (C04: "behave exactly like the positional calls at their
+\* cursor"; C03: the writer-side allocate appends exactly when the cursor is at the CURRENT end).  A session is
+\* therefore the sequential composition of stream calls, each made at the cursor the previous step left; seek / skip
+\* move the cursor and do nothing else; the writer's allocate_at_end and size observers ignore the cursor.
+\* step = [op, a, n, ge, bs, t, ty] (a is used by seek only).
+StepOutcomes(s, cur, step) ==
+  CASE step.op = "seek"              -> { Out(ResUnit, step.a, s) }
+    [] step.op = "skip"              -> { Out(ResUnit, cur + step.n, s) }
+    [] step.op = "w_allocate_at_end" -> { [o EXCEPT !.pos = cur] : o \in AllocateAtEndOutcomes(s, step.n) }
+    [] step.op = "w_size"            -> { Out(ResVal(<<Size(s), Size(s)>>), cur, s) }
+    [] OTHER                         -> Outcomes(s, [step EXCEPT !.a = cur])
+
+\* impl -> spec: obs[k] = [res, pos] observed after step k.  The cursor a step starts from is the one observed after
+\* the previous step (after a failed call the cursor is open, so the observation is what counts).  The set of archive
+\* states the specification allows after the first k steps, given everything observed so far:
+RECURSIVE SessionAfter(_, _, _, _, _)
+SessionAfter(s0, start, steps, obs, k) ==
+  IF k = 0 THEN { s0 }
+  ELSE LET cur == IF k = 1 THEN start ELSE obs[k - 1].pos
+           outs == UNION { StepOutcomes(s, cur, steps[k]) : s \in SessionAfter(s0, start, steps, obs, k - 1) }
+       IN { o.st : o \in { x \in outs : x.res = obs[k].res /\ (x.pos = AnyPos \/ x.pos = obs[k].pos) } }
+SessionAllowed(s0, start, steps, obs, post) ==
+  Len(obs) = Len(steps) /\ post \in SessionAfter(s0, start, steps, obs, Len(steps))
+
+\* spec -> impl: every run [obs, st, cur] of a session (used for sessions in which only the last step may fail, so that
+\* every cursor is determined)
+RECURSIVE SessionRuns(_, _, _, _)
+SessionRuns(s0, start, steps, k) ==
+  IF k = 0 THEN { [obs |-> <<>>, st |-> s0, cur |-> start] }
+  ELSE UNION { { [obs |-> Append(r.obs, [res |-> o.res, pos |-> o.pos]), st |-> o.st, cur |-> o.pos] :
+                   o \in StepOutcomes(r.st, r.cur, steps[k]) } : r \in SessionRuns(s0, start, steps, k - 1) }
+CursorsDetermined(s0, start, steps) ==
+  \A k \in 1..(Len(steps) - 1) : \A r \in SessionRuns(s0, start, steps, k) : r.cur # AnyPos
+SessionOutcomes(s0, start, steps) ==
+  { Out([steps |-> r.obs], r.cur, r.st) : r \in SessionRuns(s0, start, steps, Len(steps)) }
+
 \* ------------------------------------------------------------------ properties of the reference semantics
 \* every annotation sits inside the archive
 WellAnnotated(st) ==
